@@ -143,6 +143,13 @@ theorem flex_basis_anywhere (numId : Rat → String) (z a : String) (g s b : Fle
       { items := [("-grow", numId x), ("-shrink", numId y), ("-basis", b.id)], ends := none } := by
   refine ⟨?_, ?_, ?_⟩ <;> simp [flexRaw, flexLoop, hg, hs, hgb, hsb, hb, hbz]
 
+/-- Regression (`flex: 0.0`, repaired by 6a44d73): the unitless zero is recognised by its value, however it is
+written (`0.0`, `1e-999`: `int_value` is `None`), so it is a flex factor like `0`: `0 1 0px`, not the basis. -/
+example : (flexRaw false (fun q => "n:" ++ showRat q) "0px" "auto" [⟨true, true, some 0, "0.0"⟩]).items
+      = [("-grow", "n:0"), ("-shrink", "n:1"), ("-basis", "0px")] ∧
+    (flexRaw false (fun q => "n:" ++ showRat q) "0px" "auto" [⟨true, true, some 0, "0.0"⟩, ⟨false, false, some 2, "2"⟩]).items
+      = [("-grow", "n:0"), ("-shrink", "n:2"), ("-basis", "0px")] := by decide +kernel
+
 example : (flexRaw false (fun q => "n:" ++ showRat q) "0px" "auto"
     [⟨false, false, some 2, "t0"⟩, ⟨false, true, none, "t1"⟩]).items =
     [("-grow", "n:2"), ("-shrink", "n:1"), ("-basis", "t1")] := by decide +kernel
@@ -356,20 +363,18 @@ theorem grid_template_rows_columns {α : Type} (noneTok : List α) (r c : TrackP
 def renamed {β : Type} (name : String) (items : List (String × β)) : List (String × β) :=
   items.map fun (k, v) => (if startsWith k "-" then name ++ k else k, v)
 
-private theorem pev_go {β : Type} (name : String) (gen : Raw β) (wanted : String) :
+private theorem pev_go {β : Type} (name : String) (wanted : String) :
     ∀ (items : List (String × β)),
-      pendingExpanderValidate.go name gen wanted items =
+      pendingExpanderValidate.go name wanted items =
         match (renamed name items).lookup wanted with
         | some v => .ok v
-        | none => match gen.ends with
-          | some f => .error f
-          | none => .error .keyError
+        | none => .error .keyError
   | [] => by
     unfold pendingExpanderValidate.go
     simp only [renamed, List.map_nil, List.lookup_nil]
-    cases gen.ends <;> rfl
+    rfl
   | (k, v) :: rest => by
-    have ih := pev_go name gen wanted rest
+    have ih := pev_go name wanted rest
     rw [pendingExpanderValidate.go]
     simp only [renamed, List.map_cons, List.lookup_cons] at ih ⊢
     generalize (if startsWith k "-" then name ++ k else k) = key
@@ -382,34 +387,60 @@ private theorem pev_go {β : Type} (name : String) (gen : Raw β) (wanted : Stri
       simp only [h1, h2, Bool.false_eq_true, if_false]
       exact ih
 
-/-- **var() in a shorthand ≡ the shorthand of the substituted text, longhand by longhand** — when the
-expansion of the substituted tokens succeeds (`gen.ends = none`), each longhand gets the value that expansion
-gives it.  (Without the hypothesis the statement is false of the code: witness
-`Witness.C07.pending_expander_partial_application`.) -/
-theorem pending_expander_partial {β : Type} (name : String) (gen : Raw β) (wanted : String)
-    (h : gen.ends = none) :
+/-- **var() in a shorthand ≡ the shorthand of the substituted text, longhand by longhand** (full strength since
+`fix:` f9155ce; before it the statement needed `gen.ends = none`): every longhand gets exactly what the
+expansion of the substituted tokens, consumed as a whole like a literal declaration, gives it — the value it
+names, `KeyError` if it names none, and the expansion's own failure if it fails anywhere. -/
+theorem pending_expander {β : Type} (name : String) (gen : Raw β) (wanted : String) :
     pendingExpanderValidate name gen wanted =
-      match (renamed name gen.items).lookup wanted with
-      | some v => .ok v
-      | none => .error .keyError := by
-  unfold pendingExpanderValidate
-  rw [pev_go, h]
+      match gen.consumed with
+      | .error f => .error f
+      | .ok items =>
+        match (renamed name items).lookup wanted with
+        | some v => .ok v
+        | none => .error .keyError := by
+  unfold pendingExpanderValidate Raw.consumed
+  cases h : gen.ends with
+  | some f => rfl
+  | none => simp only [pev_go]
 
-/-- Whatever value a longhand gets out of a pending shorthand is one the expander yielded for it. -/
+/-- **A shorthand that is invalid after substitution is dropped as a whole**: when the literal declaration would
+be refused (the expansion raises `f`, e.g. `InvalidValues` on its second component), *every* longhand of the
+pending shorthand is refused the same way — none is applied in part (regression of
+`var-shorthand-partially-applied`). -/
+theorem pending_expander_all_or_nothing {β : Type} (name : String) (gen : Raw β) (f : Fail)
+    (h : gen.ends = some f) (wanted : String) : pendingExpanderValidate name gen wanted = .error f := by
+  unfold pendingExpanderValidate
+  rw [h]
+  rfl
+
+/-- Whatever value a longhand gets out of a pending shorthand is one the expander yielded for it, in an
+expansion that succeeded. -/
 theorem pending_expander_sound {β : Type} (name : String) (gen : Raw β) (wanted : String) (v : β)
     (h : pendingExpanderValidate name gen wanted = .ok v) :
-    (renamed name gen.items).lookup wanted = some v := by
-  unfold pendingExpanderValidate at h
-  rw [pev_go] at h
-  cases hl : (renamed name gen.items).lookup wanted with
-  | some w => rw [hl] at h; cases h; rfl
+    gen.ends = none ∧ (renamed name gen.items).lookup wanted = some v := by
+  rw [pending_expander] at h
+  unfold Raw.consumed at h
+  cases he : gen.ends with
+  | some f => rw [he] at h; cases h
   | none =>
-    rw [hl] at h
-    cases he : gen.ends <;> simp [he] at h
+    rw [he] at h
+    refine ⟨rfl, ?_⟩
+    cases hl : (renamed name gen.items).lookup wanted with
+    | some w => simp only [hl] at h; cases h; rfl
+    | none => simp only [hl] at h; cases h
 
 example : pendingExpanderValidate "margin"
     { items := [("margin-top", "1px"), ("margin-right", "2px")], ends := none } "margin-right" = .ok "2px" := by
   decide
+
+/-- Regression (`margin: var(--a)` with `--a: 7px red`, repaired by f9155ce): `expand_four_sides` yields
+`margin-top: 7px` and then raises `InvalidValues` on `red`; `margin-top` is now refused like the other sides. -/
+example :
+    pendingExpanderValidate "margin" { items := [("margin-top", "7px")], ends := some .invalid } "margin-top"
+      = .error .invalid ∧
+    pendingExpanderValidate (β := String) "margin" { items := [("margin-top", "7px")], ends := some .invalid }
+      "margin-right" = .error .invalid := by decide
 
 /-! ## 19b. border-image / mask-border and background (models with validator oracles) -/
 
